@@ -610,8 +610,31 @@ fn main() {
     let chunk = (n + threads - 1) / threads.max(1);
     let lines = std::sync::Arc::new(lines);
     let mut handles = vec![];
+    // watchdog: which case each worker is on, and since when.  A macro that does not return on some input
+    // would otherwise hang the whole check; the offending case is named on stderr (`HANG <case line>`) and the
+    // process exits with status 4.  ENTRAIT_VERIF_HANG_SECS overrides the limit (default 20 s per case).
+    let limit = std::env::var("ENTRAIT_VERIF_HANG_SECS").ok().and_then(|s| s.parse::<u64>().ok()).unwrap_or(20);
+    let slots: std::sync::Arc<Vec<std::sync::Mutex<Option<(usize, std::time::Instant)>>>> =
+        std::sync::Arc::new((0..threads).map(|_| std::sync::Mutex::new(None)).collect());
+    {
+        let slots = slots.clone();
+        let lines = lines.clone();
+        std::thread::spawn(move || loop {
+            std::thread::sleep(std::time::Duration::from_millis(500));
+            for slot in slots.iter() {
+                let cur = *slot.lock().unwrap();
+                if let Some((idx, since)) = cur {
+                    if since.elapsed().as_secs() >= limit {
+                        eprintln!("HANG {}", lines[idx]);
+                        std::process::exit(4);
+                    }
+                }
+            }
+        });
+    }
     for t in 0..threads {
         let lines = lines.clone();
+        let slots = slots.clone();
         handles.push(
             std::thread::Builder::new()
                 .stack_size(64 << 20)
@@ -619,9 +642,11 @@ fn main() {
                     let lo = (t * chunk).min(lines.len());
                     let hi = ((t + 1) * chunk).min(lines.len());
                     let mut out = Vec::with_capacity(hi - lo);
-                    for l in &lines[lo..hi] {
-                        out.push(process_line(l));
+                    for i in lo..hi {
+                        *slots[t].lock().unwrap() = Some((i, std::time::Instant::now()));
+                        out.push(process_line(&lines[i]));
                     }
+                    *slots[t].lock().unwrap() = None;
                     out
                 })
                 .unwrap(),
